@@ -6,6 +6,11 @@
 //!   conjall | <term>                 -> <k> ; r ; r ; ...                (all 4^k strings, lexicographic in I Z X Y)
 //!   conjfs  | <term>                 -> same, the top-level composite built by `Composite::from_string`
 //!   conj    | <term> | <d>*m         -> r                                (any operand count m)
+//!   conjs   | <term> | <d>*k ; <d>*k ; ...   -> r ; r ; ...      (listed strings only: wide terms, k = 5, 6)
+//!   hist    | <nq> <nc> <shots> <mid> | op ; op ; ...            (building history; `mid` = number of ops after
+//!                                       which the circuit is executed once in between, or `-`)
+//!                                    -> isc <bool>*(n+1) claims <true|false|->*n mid <S|V|-> repr <S|V> # res ..
+//!             is_stabilizer_circuit() is queried on the SAME circuit object after `new` and after every building call
 //!   circ    | <nq> <nc> <shots> | op ; op ; ...
 //!                                    -> isc <bool> repr <S|V> claims <bool>* # res <ok|err ..|panic>
 //! where r = `ok <flip> <d>*k` | `err <constructor> <payload>` | `panic <kind>`, digits I=0 Z=1 X=2 Y=3.
@@ -18,6 +23,11 @@
 //!     can express them;
 //!  4. malformed composites (`add_gate` validates nothing): arity mismatch, out-of-range and repeated
 //!     local bits  -> error constructor / index panic;
+//!  6. wide composites (5, 6 qubits) whose 2nd/3rd sub-gate is itself a gate on >= 5 qubits (nested
+//!     composite, Kronecker tree, loop) placed after sign-flipping gates: all weight-1 and weight-2
+//!     strings and a random sample;
+//!  7. building histories: the flag of the circuit after every building call (a conditional
+//!     non-Clifford gate as the LAST call in half of them), optionally one execution in between;
 //!  5. generated circuits with conditional gates: `is_stabilizer_circuit`, the representation
 //!     `execute_with_rng` creates, the claim of every gate.
 use q1t_harness::*;
@@ -342,6 +352,169 @@ fn emit_circuit(out: &mut Out, nq: usize, nc: usize, shots: usize, ops: &[String
     out.case(&req, &format!("isc {} repr {} claims {}", isc, repr, claims.join(" ")).trim_end().to_string().add_res(&res_txt));
 }
 
+
+// ------------------------------------------------------------------------------------------------
+// wide composites
+
+/// a claiming gate on exactly m qubits (m >= 1) that is a single sub-gate: nested composite, Kronecker tree or loop
+fn wide_gate(m: usize, rng: &mut SplitMix64) -> String
+{
+    match rng.below(3)
+    {
+        0 => {
+            // Kronecker tree of Clifford leaves
+            let mut parts: Vec<String> = vec![];
+            let mut left = m;
+            while left > 0
+            {
+                let k = if left >= 2 && rng.coin() { 2 } else { 1 };
+                parts.push(leaf(k, 0, rng));
+                left -= k;
+            }
+            let mut t = parts.pop().unwrap();
+            while let Some(p) = parts.pop() { t = if rng.coin() { format!("Kron {} {}", p, t) } else { format!("Kron {} {}", t, p) }; }
+            // `Kron a b` puts a first: arities add up either way
+            t
+        },
+        1 => {
+            let k = 2 + rng.below(5) as usize;
+            let mut s = format!("Comp in{} {} {}", rng.below(100), m, k);
+            for _ in 0..k
+            {
+                let a = if rng.below(3) == 0 { 2 } else { 1 };
+                s += &format!(" {} {} {}", leaf(a, 0, rng), a, join(&distinct(m, a, rng)));
+            }
+            s
+        },
+        _ => {
+            let k = 1 + rng.below(4) as usize;
+            let mut s = format!("Loop lw{} {} bw{} {} {}", rng.below(100), 1 + rng.below(2), rng.below(100), m, k);
+            for _ in 0..k
+            {
+                let a = if rng.below(3) == 0 { 2 } else { 1 };
+                s += &format!(" {} {} {}", leaf(a, 0, rng), a, join(&distinct(m, a, rng)));
+            }
+            s
+        }
+    }
+}
+
+/// a composite on n = 5 or 6 qubits: 1..2 sign-flipping small gates, then a sub-gate on >= 5 qubits, then 0..2 more
+fn gen_wide(n: usize, rng: &mut SplitMix64) -> String
+{
+    let mut items: Vec<String> = vec![];
+    for _ in 0..(1 + rng.below(2))
+    {
+        let a = if rng.below(4) == 0 { 2 } else { 1 };
+        let g = if a == 1 { rng.pick(&["X", "Y", "Z", "H", "S", "Sdg", "V"]).to_string() } else { leaf(2, 0, rng) };
+        items.push(format!("{} {} {}", g, a, join(&distinct(n, a, rng))));
+    }
+    let m = if n == 6 && rng.coin() { 6 } else { 5 };
+    items.push(format!("{} {} {}", wide_gate(m, rng), m, join(&distinct(n, m, rng))));
+    for _ in 0..rng.below(3)
+    {
+        if rng.below(3) == 0 { let m2 = 5; items.push(format!("{} {} {}", wide_gate(m2, rng), m2, join(&distinct(n, m2, rng)))); }
+        else { let a = if rng.below(3) == 0 { 2 } else { 1 }; items.push(format!("{} {} {}", leaf(a, 0, rng), a, join(&distinct(n, a, rng)))); }
+    }
+    let body = format!("w{} {} {} {}", rng.below(100), n, items.len(), items.join(" "));
+    match rng.below(4) { 0 => format!("Loop lt{} {} {}", rng.below(100), 1 + rng.below(2), body), _ => format!("Comp {}", body) }
+}
+
+fn emit_wide(out: &mut Out, term: &str, nrand: usize, rng: &mut SplitMix64)
+{
+    let g = match parse_guarded(term) { Some(g) => g, None => { out.case(&format!("isstab | {}", term), "panic parse"); return; } };
+    let k = g.nr_affected_bits();
+    out.case(&format!("isstab | {}", term), if g.is_stabilizer() { "true" } else { "false" });
+    let m = std::panic::catch_unwind(std::panic::AssertUnwindSafe(|| show_mat(&g.matrix())));
+    out.case(&format!("matrix | {}", term), &m.unwrap_or_else(|_| "panic".to_string()));
+    let mut strings: Vec<Vec<usize>> = vec![];
+    for q in 0..k { for p in 1..4 { let mut d = vec![0; k]; d[q] = p; strings.push(d); } }
+    for q in 0..k { for r in (q + 1)..k { for p in 1..4 { for p2 in 1..4 { let mut d = vec![0; k]; d[q] = p; d[r] = p2; strings.push(d); } } } }
+    for _ in 0..nrand { strings.push((0..k).map(|_| rng.below(4) as usize).collect()); }
+    let req = format!("conjs | {} | {}", term, strings.iter().map(|d| join(d)).collect::<Vec<_>>().join(" ; "));
+    let ans = strings.iter().map(|d| conj_one(&g, d)).collect::<Vec<_>>().join(" ; ");
+    out.case(&req, &ans);
+}
+
+// ------------------------------------------------------------------------------------------------
+// building histories
+
+fn snapshot_repr(circuit: &q1tsim::circuit::Circuit) -> &'static str
+{
+    match std::panic::catch_unwind(std::panic::AssertUnwindSafe(|| circuit.verif_snapshot()))
+    {
+        Ok(Some(q1tsim::verif::Snapshot::Stabilizer { .. })) => "S",
+        Ok(Some(q1tsim::verif::Snapshot::Vector { .. })) => "V",
+        Ok(Some(q1tsim::verif::Snapshot::Opaque)) => "O",
+        Ok(None) => "none",
+        Err(_) => "panic"
+    }
+}
+
+fn run_once(circuit: &mut q1tsim::circuit::Circuit, shots: usize, seed: u64) -> String
+{
+    use rand_core::SeedableRng;
+    let mut rng = rand_hc::Hc128Rng::seed_from_u64(seed);
+    let res = {
+        let c = std::panic::AssertUnwindSafe(&mut *circuit);
+        let r = std::panic::AssertUnwindSafe(&mut rng);
+        std::panic::catch_unwind(move || {
+            let std::panic::AssertUnwindSafe(c) = c;
+            let std::panic::AssertUnwindSafe(r) = r;
+            c.execute_with_rng(shots, r)
+        })
+    };
+    match res { Ok(Ok(())) => "ok".to_string(), Ok(Err(e)) => show_err(&e), Err(p) => panic_kind(p) }
+}
+
+/// one circuit object: query the flag after `new` and after every building call; `mid`: execute once after that many ops
+fn emit_history(out: &mut Out, nq: usize, nc: usize, shots: usize, mid: Option<usize>, ops: &[String], seed: u64)
+{
+    let req = format!("hist | {} {} {} {} | {}", nq, nc, shots, mid.map(|m| m.to_string()).unwrap_or("-".to_string()), ops.join(" ; "));
+    let ops_v = ops.to_vec();
+    let r = std::panic::catch_unwind(move || {
+        let mut c = q1tsim::circuit::Circuit::new(nq, nc);
+        let mut flags = vec![c.is_stabilizer_circuit()];
+        let mut midrepr = "-".to_string();
+        let mut midres = "-".to_string();
+        if mid == Some(0) { midres = run_once(&mut c, shots, seed); midrepr = snapshot_repr(&c).to_string(); }
+        for (i, op) in ops_v.iter().enumerate()
+        {
+            if let Err(e) = sim::add_op(&mut c, op) { return format!("build {}", show_err(&e)); }
+            flags.push(c.is_stabilizer_circuit());
+            if mid == Some(i + 1) { midres = run_once(&mut c, shots, seed); midrepr = snapshot_repr(&c).to_string(); }
+        }
+        let res = run_once(&mut c, shots, seed + 1);
+        let repr = snapshot_repr(&c);
+        let last = c.is_stabilizer_circuit();
+        format!("{} | mid {} repr {} last {} # res {} / {}", flags.iter().map(|b| b.to_string()).collect::<Vec<_>>().join(" "), midrepr, repr, last, midres, res)
+    });
+    let claims: Vec<String> = ops.iter().map(|op| match op_gate_term(op)
+        { Some(t) => if gate::parse_str(&t).is_stabilizer() { "true".to_string() } else { "false".to_string() }, None => "-".to_string() }).collect();
+    match r
+    {
+        Ok(a) if a.starts_with("build") => out.case(&req, &a),
+        Ok(a) => { let (flags, rest) = a.split_at(a.find(" | ").unwrap()); out.case(&req, &format!("isc {} claims {} {}", flags, claims.join(" "), &rest[3..]).replace("  ", " ")); },
+        Err(p) => out.case(&req, &panic_kind(p))
+    }
+}
+
+fn gen_history(rng: &mut SplitMix64) -> (usize, usize, Vec<String>)
+{
+    let (nq, nc, mut ops) = gen_circuit(rng);
+    if rng.coin()
+    {
+        // all earlier gates claim (regenerate in mode "all claiming" by filtering) and the LAST call adds a conditional gate that does not
+        ops.retain(|op| match op_gate_term(op) { Some(t) => gate::parse_str(&t).is_stabilizer(), None => true });
+        let ncb = 1 + rng.below(nc as u64) as usize;
+        let control = distinct(nc, ncb, rng);
+        let k = if nq >= 2 && rng.below(3) == 0 { 2 } else { 1 };
+        let g = leaf(k, 1000, rng);
+        ops.push(format!("cond {} {} {} {} {} {}", ncb, join(&control), rng.below(1 << ncb.min(3)), k, join(&distinct(nq, k, rng)), g));
+    }
+    (nq, nc, ops)
+}
+
 trait AddRes { fn add_res(self, r: &str) -> String; }
 impl AddRes for String { fn add_res(self, r: &str) -> String { format!("{} # res {}", self, r) } }
 
@@ -420,6 +593,29 @@ fn main()
     emit_circuit(&mut out, 1, 1, 1, &["gate 1 0 Loop z 0 q 1 1 T 1 0".to_string()], 4);
     emit_circuit(&mut out, 2, 2, 3, &["gate 2 0 1 Comp bell 2 2 H 1 0 CX 2 0 1".to_string(), "measureall 2 0 1 Z".to_string()], 5);
     emit_circuit(&mut out, 2, 2, 3, &["gate 2 1 0 CH".to_string()], 6);
+
+    // 6. wide composites
+    emit_wide(&mut out, "Comp w 5 3 X 1 0 Y 1 3 Kron Kron H S Kron CX V 5 4 2 0 1 3", if th { 256 } else { 48 }, &mut rng);
+    emit_wide(&mut out, "Comp w 6 3 Z 1 5 CX 2 0 5 Comp in 5 3 H 1 0 CZ 2 0 4 Sdg 1 2 5 5 0 1 2 3", if th { 256 } else { 48 }, &mut rng);
+    for i in 0..(if th { 60 } else { 6 })
+    {
+        let n = if i % 3 == 2 { 6 } else { 5 };
+        let term = gen_wide(n, &mut rng);
+        emit_wide(&mut out, &term, if th { 256 } else { 48 }, &mut rng);
+    }
+
+    // 7. building histories
+    for i in 0..(if th { 2000 } else { 300 })
+    {
+        let (nq, nc, ops) = gen_history(&mut rng);
+        let shots = 1 + rng.below(3) as usize;
+        let mid = if i % 2 == 1 { Some(rng.below(ops.len() as u64 + 1) as usize) } else { None };
+        emit_history(&mut out, nq, nc, shots, mid, &ops, 5000 + 2 * i as u64);
+    }
+    emit_history(&mut out, 2, 1, 1, None, &["gate 1 0 H".to_string(), "cond 1 0 1 1 1 T".to_string()], 7);
+    emit_history(&mut out, 2, 1, 1, Some(1), &["gate 1 0 H".to_string(), "cond 1 0 1 1 1 T".to_string()], 8);
+    emit_history(&mut out, 2, 1, 1, Some(1), &["gate 1 0 T".to_string(), "gate 1 1 H".to_string()], 9);
+    emit_history(&mut out, 1, 1, 1, Some(0), &["cond 1 0 0 1 0 RX 3ff0000000000000".to_string()], 10);
 
     let n = out.finish();
     eprintln!("c06: {} cases", n);
